@@ -58,6 +58,12 @@ def run(ctx):
     cov["http3_faults"] = {k: hf[k] for k in ("h3_fault_vectors", "h3_fault_evaluations", "h3_fault_distinct_nontrivial")}
     cov["traces_validated_against_impl"] += hf["h3_fault_evaluations"]
     cov["evaluations"] += hf["h3_fault_evaluations"]
+    # several tunnels of ONE HTTP/3 session under flow control, the client returning credit to the streams in every order (StreamWake.tla)
+    import h3conc_jobs
+    sc = h3conc_jobs.stream_credit_job(ctx)
+    cov["http3_concurrent_tunnels"] = {k: sc[k] for k in ("stream_credit_vectors", "stream_credit_evaluations", "stream_credit_states", "stream_credit_rule")}
+    cov["traces_validated_against_impl"] += sc["stream_credit_evaluations"]
+    cov["evaluations"] += sc["stream_credit_evaluations"]
     # tunnels established through a SOCKS5 upstream: the connection to the destination is the one that
     # carried the SOCKS5 dialogue (Socks5.tla TunnelIsDestination); both directions are compared octet for octet
     import c15
